@@ -103,9 +103,9 @@ SpringsRational(m, ps) ==
 Init ==
   /\ phase = "init" /\ out = <<>>
   /\ \E n \in 1..MaxLinks :
-       \E g \in RandomSubset(NModels, Genomes(n)) :
+       \E g \in Genomes(NModels, n) :
          /\ model = DecodeModel(g, n)
-         /\ \E p \in RandomSubset(NPoses, [1..(n * PGW + 8) -> GeneVals]) :
+         /\ \E p \in {Gen(SeedBase + 7919 * k + g[1] + 13 * g[5] + 101 * g[9], n * PGW + 8) : k \in 1..NPoses} :
               LET ps == DecodePose(model, p) IN
               /\ pose = IF PrismaticOnly(model) /\ p[n * PGW + 1] % 2 = 0 THEN ps ELSE ZeroVel(model, ps)
               /\ grav = Gravs[(p[n * PGW + 2] % 4) + 1]
